@@ -448,7 +448,10 @@ fn serialise_router_advertisement(a: &RtrAdvertisement) -> Vec<u8> {
                 v.serialise(PREF64.0);
                 v.serialise(2_u8);
                 /* 13 bits, in units of 8 seconds */
-                let scaled_lifetime = std::cmp::min(lifetime.as_secs() / 8, 8191) as u16;
+                /* RFC8781 Section 4.1: lifetimes that are not a multiple of 8 are rounded up, so
+                 * that a short lifetime does not turn into 0 ("stop using this prefix").
+                 */
+                let scaled_lifetime = std::cmp::min(lifetime.as_secs().div_ceil(8), 8191) as u16;
                 let plc = ((prefixlen - 32) / 8) as u16;
                 v.serialise((scaled_lifetime << 3) | plc);
                 for i in 0..12 {
